@@ -379,6 +379,9 @@ class SvcBench:
                 'pre': len(self.exec.parked()), 'holding': len(self.exec.holders()),
                 'installed': self.installed(),
                 'custom': self.custom(),
+                'custom_n': (len(self.tps._custom) if isinstance(getattr(self.tps, '_custom', None), list) else None),
+                'custom_ids_n': (len(self.tps._custom_ids) if isinstance(getattr(self.tps, '_custom_ids', None), list)
+                                 else None),
                 'polled': self._safe(lambda: flatten(self.tps.current_config), 'current_config', [])}
 
     # ---- ops
